@@ -290,6 +290,13 @@ def check_matrix(case, rec):
             return
         raise Violation("same-object", f"{desc} did not leave the same {lk} object: the statement rebinds the name to "
                                        f"{R!r} (left operand now holds {A.current()}, expected {want})")
+    if op == "/=" and lk == "elem" and A.obj.payload is not A.box and isinstance(A.obj.payload, Payload) \
+            and plain(A.obj.payload, "result") == want and A.current() == tagged(a) \
+            and _known(rec, F_BOX_IDIV):
+        # the element forwards /= to its box, which (no __itruediv__) answers with a new box
+        rec.cls("known-deviation")
+        B.unchanged("right", desc)
+        return
     A.intact("left", desc)
     if A.current() != want:
         raise Violation("value", f"after {desc} the {lk} holds {A.current()}, expected {want}")
